@@ -87,7 +87,7 @@ func vlqSpecBytes(st *State, n *IntV, k int) []*IntV {
 
 // readerOver wraps a byte slice into an io.Reader interface value backed by the bytes.Reader model.
 func (ex *Exec) readerOver(st *State, sl *SliceV) *IfaceV {
-	id := ex.newObj(st, &RdrV{Src: *sl, Pos: mkConst(0, 64, true)}, nil)
+	id := ex.newObj(st, &RdrV{Src: *sl, Pos: mkConst(0, 64, true), Source: true}, nil)
 	var dyn types.Type
 	if bp := ex.P.Prog.ImportedPackage("bytes"); bp != nil {
 		if o := bp.Pkg.Scope().Lookup("Reader"); o != nil {
@@ -561,6 +561,24 @@ func findEventEncoder(p *Program) *ssa.Function {
 			found = append(found, f)
 		}
 	}
+	if len(found) > 1 {
+		// a function with these parameters that never reaches the variable-length-quantity encoder does not serialise
+		// anything (e.g. a helper that appends an event to a track before the file is written)
+		if vq := findVlqEncoder(p); vq != nil {
+			var ser []*ssa.Function
+			for _, f := range found {
+				for _, g := range p.Reachable(f) {
+					if g == vq {
+						ser = append(ser, f)
+						break
+					}
+				}
+			}
+			if len(ser) > 0 {
+				found = ser
+			}
+		}
+	}
 	if len(found) == 1 {
 		return found[0]
 	}
@@ -1007,6 +1025,32 @@ func findHeaderParser(p *Program) *ssa.Function {
 	return nil
 }
 
+// findReaderCtor: the function of package smf that makes a reader from an io.Reader (role: func(io.Reader) *reader).
+func findReaderCtor(p *Program) *ssa.Function {
+	rT := p.roleT("smf.reader")
+	sp := p.Pkg("smf")
+	if rT == nil || sp == nil {
+		return nil
+	}
+	var found []*ssa.Function
+	for _, f := range pkgFuncsWithClosures(sp, p) {
+		sig := f.Signature
+		if sig.Recv() != nil || sig.Params().Len() != 1 || sig.Results().Len() != 1 || f.Parent() != nil {
+			continue
+		}
+		if sig.Params().At(0).Type().String() != "io.Reader" {
+			continue
+		}
+		if pt, ok := sig.Results().At(0).Type().(*types.Pointer); ok && types.Identical(pt.Elem(), rT) {
+			found = append(found, f)
+		}
+	}
+	if len(found) == 1 {
+		return found[0]
+	}
+	return nil
+}
+
 func mkReaderObj(ex *Exec, st *State, p *Program) (*PtrV, *PtrV) {
 	rT := p.roleT("smf.reader")
 	sT := p.namedType("smf", "SMF")
@@ -1319,6 +1363,7 @@ type decCell struct {
 	kind   int  // 0 = no stored status, 8..E = stored channel status of that kind
 	typ    int  // meta type for canary FF, else -1
 	large  bool // sysex / meta with a three-byte length of at least 16384 (beyond every small-buffer path of the reader)
+	logger bool // the file object has a logger set (smf.Log option): what is logged must not change what is decoded
 }
 
 type decResult struct {
@@ -1357,6 +1402,26 @@ func runDecodeCell(p *Program, dec, newRR *ssa.Function, cell decCell) decResult
 	ex.setField(st, sp, "numTracks", ntr)
 	done := mkSym(ex.syms.Get("processedTracks", 16, true))
 	ex.setField(st, rp, "processedTracks", done)
+	setLoggers := func(st *State, objs ...*PtrV) int {
+		// any non-nil logger (its Printf only looks at its arguments, invokeSummary): every field of the exported
+		// interface type Logger in the reader and in the file object
+		lt := p.namedType("smf", "Logger")
+		n := 0
+		for _, o := range objs {
+			if o == nil || lt == nil {
+				continue
+			}
+			if sv, ok := st.heap[o.Obj].(*StructV); ok {
+				for i := 0; i < sv.T.NumFields(); i++ {
+					if types.Identical(sv.T.Field(i).Type(), lt) {
+						sv.Fields[i] = &IfaceV{Unk: true, NonNil: true}
+						n++
+					}
+				}
+			}
+		}
+		return n
+	}
 	// input shape by class
 	isSysex := canary == 0xF0 || canary == 0xF7
 	isMeta := canary == 0xFF
@@ -1408,9 +1473,29 @@ func runDecodeCell(p *Program, dec, newRR *ssa.Function, cell decCell) decResult
 			res.class = "system status F1-F6/F8-FE"
 		}
 	}
+	if cell.logger {
+		res.class += ", logger set"
+	}
 	src := ex.mkBytes(st, "payload", elems, true, 0)
 	rd := ex.readerOver(st, src)
-	ex.setField(st, rp, "input", rd)
+	// the reader object is built by the package's own constructor where there is one (so that a wrapper around the
+	// input, a pre-sized buffer etc. are set up the way the code expects); only the cell's state is then written over it
+	viaCtor := false
+	if ctor := findReaderCtor(p); ctor != nil {
+		if co := ex.Call(st, ctor, []Val{rd}, nil); len(co) == 1 && !co[0].Panic {
+			if np, ok := co[0].Ret[0].(*PtrV); ok && !np.Nil && !np.Unk {
+				st = co[0].St
+				rp = np
+				viaCtor = ex.setField(st, rp, "SMF", sp) && ex.setField(st, rp, "runningStatus", rsv) && ex.setField(st, rp, "processedTracks", done)
+			}
+		}
+	}
+	if !viaCtor {
+		ex.setField(st, rp, "input", rd)
+	}
+	if cell.logger && setLoggers(st, rp, sp) == 0 {
+		return decResult{cell: cell, why: "no field of type smf.Logger in the reader or the file object"}
+	}
 	var args []Val
 	for _, prm := range dec.Params {
 		if w, _, ok := intTypeInfo(prm.Type()); ok && w == 8 {
@@ -1514,11 +1599,18 @@ func runDecodeCell(p *Program, dec, newRR *ssa.Function, cell decCell) decResult
 			}
 			want := []Seg{{Elems: pre}, {Run: &Run{Src: "payload", Off: constTerm(int64(hdr)), Len: symTerm(v0s)}}}
 			expectMsg(normSegs(want), termAdd(constTerm(int64(hdr)), symTerm(v0s), 1), mkConst(0, 8, false))
-			// end-of-track bookkeeping
-			isDone, _ := ex.getField(o.St, rp, "isDone")
-			expChunk, _ := ex.getField(o.St, rp, "expectChunk")
-			dv, dk := o.St.boolOf(isDone.(*BoolV))
-			cv, ck := o.St.boolOf(expChunk.(*BoolV))
+			// end-of-track bookkeeping — only where the reader keeps its mode in two flags (done / chunk header expected);
+			// with any other representation the whole-file read simulation (C02.4: two tracks declared and held, three
+			// declared) is what decides that an end-of-track finishes the file exactly when it is the last declared one
+			isDoneV, _ := ex.getField(o.St, rp, "isDone")
+			expChunkV, _ := ex.getField(o.St, rp, "expectChunk")
+			isDone, okD := isDoneV.(*BoolV)
+			expChunk, okC := expChunkV.(*BoolV)
+			if !okD || !okC {
+				continue
+			}
+			dv, dk := o.St.boolOf(isDone)
+			cv, ck := o.St.boolOf(expChunk)
 			if isMeta && cell.typ == 0x2F {
 				// last declared track => done, otherwise expect the next chunk; exactly one of them
 				if !dk || !ck || dv == cv {
@@ -1584,15 +1676,21 @@ func ruleEventDecode(c *Ctx, rule, rulePanic string) {
 		for _, kind := range []int{0, 8, 9, 0xA, 0xB, 0xC, 0xD, 0xE} {
 			if canary == 0xFF {
 				for t := 0; t < 256; t++ {
-					cells = append(cells, decCell{canary, kind, t, false})
+					cells = append(cells, decCell{canary, kind, t, false, false})
+					if kind == 0 {
+						cells = append(cells, decCell{canary, kind, t, false, true})
+					}
 				}
 			} else {
-				cells = append(cells, decCell{canary, kind, -1, false})
+				cells = append(cells, decCell{canary, kind, -1, false, false})
+				if kind == 9 && (canary == 0xF0 || canary == 0xF7 || canary == 0x93 || canary == 0xC1 || canary == 0x40 || canary == 0xF8) {
+					cells = append(cells, decCell{canary, kind, -1, false, true})
+				}
 			}
 		}
 	}
 	// large payloads (length >= 16384, three-byte VLQ): sysex, F7 packet and a text meta event
-	cells = append(cells, decCell{0xF0, 0, -1, true}, decCell{0xF7, 0x9, -1, true}, decCell{0xFF, 0, 0x01, true})
+	cells = append(cells, decCell{0xF0, 0, -1, true, false}, decCell{0xF7, 0x9, -1, true, false}, decCell{0xFF, 0, 0x01, true, false})
 	results := make([]decResult, len(cells))
 	var wg sync.WaitGroup
 	sem := make(chan bool, 16)
